@@ -394,14 +394,14 @@ func cyclicInputs() []corpusMsg {
 	}
 	selfList := func(ord byte) [][]byte {
 		return [][]byte{
-			{0x79, 0x51, 0x90 + ord},                   // [self]
-			{0x7a, 0x91, 0x51, 0x90 + ord},             // [1, self]
-			{0x57, 0x51, 0x90 + ord, 'Z'},              // variable list [self]
-			cat([]byte{0x71}, str("[int"), []byte{0x51, 0x90 + ord}),    // typed list [self]
-			cat([]byte{0x71}, str("[string"), []byte{0x51, 0x90 + ord}), // typed (registered) list [self]
-			{'H', 0x51, 0x90 + ord, 0x91, 'Z'},         // map {self: 1}
-			{'H', 0x91, 0x51, 0x90 + ord, 'Z'},         // map {1: self}
-			{'H', 0x01, 'a', 0x51, 0x90 + ord, 'Z'},    // map {"a": self}
+			{0x79, 0x51, 0x90 + ord},                                                                 // [self]
+			{0x7a, 0x91, 0x51, 0x90 + ord},                                                           // [1, self]
+			{0x57, 0x51, 0x90 + ord, 'Z'},                                                            // variable list [self]
+			cat([]byte{0x71}, str("[int"), []byte{0x51, 0x90 + ord}),                                 // typed list [self]
+			cat([]byte{0x71}, str("[string"), []byte{0x51, 0x90 + ord}),                              // typed (registered) list [self]
+			{'H', 0x51, 0x90 + ord, 0x91, 'Z'},                                                       // map {self: 1}
+			{'H', 0x91, 0x51, 0x90 + ord, 'Z'},                                                       // map {1: self}
+			{'H', 0x01, 'a', 0x51, 0x90 + ord, 'Z'},                                                  // map {"a": self}
 			cat([]byte{'M'}, str("Inner"), []byte{'H', 0x01, 'a', 0x51, 0x91 + ord, 'Z', 0x91, 'Z'}), // typed map (struct type) whose key is a self-containing map
 			cat([]byte{'M'}, str("NamedMap"), []byte{0x79, 0x51, 0x91 + ord, 0x91, 'Z'}),             // typed map whose key is a self-containing list
 		}
@@ -653,6 +653,8 @@ func init() {
 			}
 			return us
 		},
-		RequireCover: func(string) []string { return []string{"lazy-full", "lazy-tags", "edit", "amplification", "ladder", "cycles"} },
+		RequireCover: func(string) []string {
+			return []string{"lazy-full", "lazy-tags", "edit", "amplification", "ladder", "cycles"}
+		},
 	})
 }
